@@ -13,7 +13,7 @@ REVERTS = {"revert_fix_from_thread_run_cancelled_scope": ["C03"], "revert_fix_na
            "revert_fix_start_exception": ["C02", "C07"],
            "revert_fix_spawn_into_cancelled": ["C03", "C02"],
            "revert_fix_empty_group_checkpoint": ["C01"], "revert_fix_text_bom": ["C16"]}
-ALSO = {"C13-2": ["C13", "C12"], "C02-1": ["C02", "C03"]}
+ALSO = {"C13-2": ["C13", "C12"], "C12-w2-2": ["C12", "C13"], "C03-w3-1": ["C03", "C06"], "C03-w3-2": ["C03", "C14"], "C02-w3-2": ["C02", "C03"], "C02-1": ["C02", "C03"]}
 
 
 def targets():
